@@ -208,8 +208,52 @@ func main() {
 		}
 	}
 
+	// (4) histories: the functions are pure, so a call must not depend on the call before it. For
+	// every length 1..9 and 16, every position and EVERY ordered pair (a, b) of byte values: decode
+	// the slice with a at that position, then directly the one with b there (one goroutine per
+	// length, so the two calls really are consecutive); likewise every ordered pair of symbols at
+	// every position of digit strings of length 1..17 for Encode.
+	lengths := []int{1, 2, 3, 4, 5, 6, 7, 8, 9, 16}
+	vk.Parallel(len(lengths), func(k int) {
+		n := lengths[k]
+		for _, pattern := range []int{0, 1} {
+			base := make([]byte, n)
+			for i := range base {
+				if pattern == 1 {
+					base[i] = spec.BCD2((i*13 + n) % 100)
+				}
+			}
+			x, y := append([]byte{}, base...), append([]byte{}, base...)
+			for pos := 0; pos < n; pos++ {
+				for a := 0; a < 256; a++ {
+					x[pos] = byte(a)
+					for b := 0; b < 256; b++ {
+						y[pos] = byte(b)
+						checkDecode(r, x)
+						checkDecode(r, y)
+					}
+				}
+				x[pos], y[pos] = base[pos], base[pos]
+			}
+		}
+	})
+	for n := 1; n <= 17; n++ {
+		base := make([]byte, n)
+		for i := range base {
+			base[i] = '0' + byte((i*7+n)%10)
+		}
+		for pos := 0; pos < n; pos++ {
+			for _, s1 := range symbols {
+				for _, s2 := range symbols {
+					checkEncode(r, string(base[:pos])+s1+string(base[pos+1:]))
+					checkEncode(r, string(base[:pos])+s2+string(base[pos+1:]))
+				}
+			}
+		}
+	}
+
 	r.Distinct(nontrivial)
-	r.Rule(fmt.Sprintf("every string of length 0..%d over {0..9,'a','é'}; every byte slice of length 0..2 and (thorough: all; quick: one byte fixed to a boundary value) length 3; every single (position,symbol) substitution into digit strings of length 1..32 and BCD slices of length 1..16; distinct = distinct inputs by construction", maxLen))
+	r.Rule(fmt.Sprintf("histories (consecutive calls): every ordered pair of byte values at every position of slices of length 1..9 and 16 (two base patterns) for Decode, every ordered pair of symbols at every position of digit strings of length 1..17 for Encode - counted as evaluations only; every string of length 0..%d over {0..9,'a','é'}; every byte slice of length 0..2 and (thorough: all; quick: one byte fixed to a boundary value) length 3; every single (position,symbol) substitution into digit strings of length 1..32 and BCD slices of length 1..16; distinct = distinct inputs by construction", maxLen))
 	r.Sample(map[string]any{"encode": "12a", "reference": "error"})
 	r.Sample(map[string]any{"encode": "123", "reference": "0123"})
 	r.Sample(map[string]any{"decode": "129a", "reference": "error"})
